@@ -61,7 +61,8 @@ def inline_self_calls(t, repo: Repo, cls_name: str, depth: int = 0):
                             mapping[("name", "va")] = ("tuple", tuple(args[n_pos:]))
                 if ok:
                     return inline_self_calls(_renorm(subst(body, mapping)), repo, cls_name, depth + 1)
-    return tuple(inline_self_calls(x, repo, cls_name, depth) for x in t)
+    out = tuple(inline_self_calls(x, repo, cls_name, depth) for x in t)
+    return _renorm(out) if out != t else out
 
 
 def _renorm(t):
@@ -115,6 +116,443 @@ def reaches_call(repo: Repo, fi: FuncInfo, name: str, depth: int = 3, seen=None)
     return False
 
 
+
+# ----------------------------------------------------------------------------- semantic comparison of two skeletons
+
+_LOGIC = {"and", "or", "not", "ite", "guard", "assuming", "raise"}
+
+
+def _canon_q(t):
+    """forall(dom, c) is handled as not exists(dom, not c): both spellings share one atom."""
+    from .skeleton import neg
+
+    if isinstance(t, tuple) and t and t[0] == "forall":
+        return ("not", ("exists", t[1], neg(t[2])))
+    return t
+
+
+def _atoms(t, out: list) -> None:
+    t = _canon_q(t)
+    if isinstance(t, tuple) and t and t[0] in _LOGIC:
+        if t[0] in ("and", "or"):
+            for x in t[1]:
+                _atoms(x, out)
+        elif t[0] == "not":
+            _atoms(t[1], out)
+        elif t[0] == "ite":
+            for x in t[1:]:
+                _atoms(x, out)
+        elif t[0] == "guard":
+            _atoms(t[1], out)
+            _atoms(t[3], out)
+        elif t[0] == "assuming":
+            _atoms(t[1], out)
+            _atoms(t[2], out)
+        return
+    if t in (("const", "True"), ("const", "False")):
+        return
+    if t not in out:
+        out.append(t)
+
+
+class _Raise:
+    def __init__(self, name: str):
+        self.name = name
+
+    def __eq__(self, other):
+        return isinstance(other, _Raise) and other.name == self.name
+
+    def __hash__(self):
+        return hash(("raise", self.name))
+
+
+def _ev(t, val):
+    """Value of a skeleton under a valuation of its atoms: True / False / _Raise / the atom itself (opaque value)."""
+    t = _canon_q(t)
+    if t == ("const", "True"):
+        return True
+    if t == ("const", "False"):
+        return False
+    if isinstance(t, tuple) and t and t[0] in _LOGIC:
+        tag = t[0]
+        if tag == "raise":
+            return _Raise(t[1])
+        if tag == "not":
+            v = _ev(t[1], val)
+            return (not v) if isinstance(v, bool) else v
+        if tag in ("and", "or"):
+            vs = [_ev(x, val) for x in t[1]]
+            decisive = (tag == "or")
+            if any(v is decisive for v in vs):
+                return decisive
+            for v in vs:
+                if isinstance(v, _Raise):
+                    return v
+            opaque = [v for v in vs if not isinstance(v, bool)]
+            if opaque:
+                return ("opaque", tag, tuple(sorted(map(repr, opaque))))
+            return not decisive
+        if tag == "ite":
+            c = _ev(t[1], val)
+            if isinstance(c, _Raise):
+                return c
+            if not isinstance(c, bool):
+                return ("opaque", "ite", repr(c), repr(_ev(t[2], val)), repr(_ev(t[3], val)))
+            return _ev(t[2], val) if c else _ev(t[3], val)
+        if tag == "guard":
+            c = _ev(t[1], val)
+            if c is True:
+                return _Raise(t[2])
+            if c is False:
+                return _ev(t[3], val)
+            return c if isinstance(c, _Raise) else ("opaque", "guard", repr(c))
+        if tag == "assuming":
+            c = _ev(t[1], val)
+            if c is False:
+                return _Raise("AssertionError")
+            return _ev(t[2], val)
+    v = val.get(t)
+    return v if v is not None else ("atom", repr(t))
+
+
+def _is_boolean_atom(t, where_bool: set) -> bool:
+    return t in where_bool
+
+
+def _bool_positions(t, out: set, boolean: bool = False) -> None:
+    """atoms that occur in a position where only their truth value matters"""
+    t = _canon_q(t)
+    if isinstance(t, tuple) and t and t[0] in _LOGIC:
+        tag = t[0]
+        if tag in ("and", "or"):
+            for x in t[1]:
+                _bool_positions(x, out, True)
+        elif tag == "not":
+            _bool_positions(t[1], out, True)
+        elif tag == "ite":
+            _bool_positions(t[1], out, True)
+            _bool_positions(t[2], out, boolean)
+            _bool_positions(t[3], out, boolean)
+        elif tag == "guard":
+            _bool_positions(t[1], out, True)
+            _bool_positions(t[3], out, boolean)
+        elif tag == "assuming":
+            _bool_positions(t[1], out, True)
+            _bool_positions(t[2], out, boolean)
+        return
+    if boolean:
+        out.add(t)
+
+
+def prop_equivalent(a, b, repo: Optional[Repo] = None, max_atoms: int = 12) -> Optional[bool]:
+    """Are the two skeletons equal as functions of their atoms (maximal non-propositional subterms), over every
+    valuation consistent with the class hierarchy (isinstance(x, Sub) implies isinstance(x, Super))?
+    None if there is nothing propositional to compare or too many atoms."""
+    atoms: list = []
+    _atoms(a, atoms)
+    _atoms(b, atoms)
+    bools: set = set()
+    _bool_positions(a, bools, True)
+    _bool_positions(b, bools, True)
+    batoms = [x for x in atoms if x in bools]
+    if not batoms or len(batoms) > max_atoms:
+        return None
+    if a == b:
+        return True
+    if not (isinstance(a, tuple) and a and a[0] in _LOGIC) and not (isinstance(b, tuple) and b and b[0] in _LOGIC):
+        return None
+    # hierarchy constraints
+    impl: List[Tuple[int, int]] = []
+    if repo is not None:
+        inst = []
+        for i, x in enumerate(batoms):
+            if isinstance(x, tuple) and x[0] == "call" and x[1] is None and x[2] == "isinstance" and len(x[3]) == 2 and x[3][1][0] == "name":
+                inst.append((i, x[3][0], x[3][1][1]))
+        for i, xi, ci in inst:
+            for j, xj, cj in inst:
+                if i != j and xi == xj and ci != cj and ci in repo.classes and any(c.name == cj for c in repo.mro(ci)):
+                    impl.append((i, j))
+    import itertools as _it
+
+    for bits in _it.product((False, True), repeat=len(batoms)):
+        if any(bits[i] and not bits[j] for i, j in impl):
+            continue
+        val = dict(zip(batoms, bits))
+        if _ev(a, val) != _ev(b, val):
+            prop_equivalent.witness = {show(k)[:60]: v for k, v in val.items()}  # type: ignore[attr-defined]
+            return False
+    return True
+
+
+def same_atoms(a, b) -> bool:
+    xa: list = []
+    xb: list = []
+    _atoms(a, xa)
+    _atoms(b, xb)
+    return bool(xa) and set(xa) == set(xb)
+
+
+_EXPR_TAGS = {"bin", "const", "name", "neg", "attr", "sub", "bv", "un", "unpack"}
+
+
+def _is_expr_leaf(t) -> bool:
+    if not isinstance(t, tuple) or not t:
+        return True
+    if t[0] == "call":
+        return t[2] in ("len",) and all(_is_expr_leaf(x) for x in t[3])
+    if t[0] == "count":
+        return len(t) == 3 and t[2] in (("const", "True"), ("true",)) and isinstance(t[1], tuple) and t[1][0] == "iter" and _is_expr_leaf(t[1][1])
+    if t[0] in _EXPR_TAGS:
+        return all(_is_expr_leaf(x) for x in t[1:] if isinstance(x, tuple))
+    return False
+
+
+def _wrapped(t):
+    """children that ``t`` wraps as a unary operator / method call / single-argument function"""
+    if not isinstance(t, tuple) or not t:
+        return []
+    if t[0] in ("not", "neg", "iter"):
+        return [t[1]]
+    if t[0] == "attr":
+        return [t[1]]
+    if t[0] == "call":
+        out = []
+        if t[1] is not None:
+            out.append(t[1])
+        elif len(t[3]) == 1 and not t[4]:
+            out.append(t[3][0])
+        return out
+    return []
+
+
+def _list_dist(xs, ys, budget: int, ordered: bool) -> Optional[int]:
+    xs, ys = list(xs), list(ys)
+    all_x, all_y = list(xs), list(ys)
+    if not ordered:
+        for x in list(xs):
+            if x in ys:
+                xs.remove(x)
+                ys.remove(x)
+    if len(xs) == len(ys):
+        if ordered:
+            diffs = [(x, y) for x, y in zip(xs, ys) if x != y]
+            if len(diffs) == 2 and diffs[0][0] == diffs[1][1] and diffs[0][1] == diffs[1][0]:
+                return 1  # two children exchanged
+            total = 0
+            for x, y in diffs:
+                d = edit_distance(x, y, budget - total)
+                if d is None:
+                    return None
+                total += d
+                if total > budget:
+                    return None
+            return total
+        total = 0
+        for x in xs:
+            best, best_y = None, None
+            for y in ys:
+                d = edit_distance(x, y, budget - total)
+                if d is not None and (best is None or d < best):
+                    best, best_y = d, y
+            if best is None:
+                return None
+            ys.remove(best_y)
+            total += best
+            if total > budget:
+                return None
+        return total
+    if abs(len(xs) - len(ys)) == 1 and budget >= 1:
+        longer, shorter = (xs, ys) if len(xs) > len(ys) else (ys, xs)
+        for k in range(len(longer)):
+            rest = longer[:k] + longer[k + 1:]
+            if (rest == shorter) if ordered else (sorted(map(repr, rest)) == sorted(map(repr, shorter))):
+                if longer is xs:
+                    # the implementation (first argument) has an EXTRA requirement / alternative / filter: decided only if
+                    # it is built from what the specification already talks about (otherwise it may be a correct shortcut)
+                    known = set()
+                    for o in list(all_x) + list(all_y):
+                        if o is not longer[k]:
+                            known |= logic_vocab(o)
+                    if not logic_vocab(longer[k]) <= known:
+                        return None
+                return 1  # one child added / dropped
+    return None
+
+
+def _swap_names(t, n1, n2):
+    if t == n1:
+        return n2
+    if t == n2:
+        return n1
+    if isinstance(t, tuple):
+        return tuple(_swap_names(x, n1, n2) for x in t)
+    return t
+
+
+def _name_leaves(t, out: set) -> None:
+    if isinstance(t, tuple):
+        if t and t[0] in ("name", "bv"):
+            out.add(t)
+        elif t and t[0] == "unpack" and len(t) == 3 and isinstance(t[1], tuple) and t[1] and t[1][0] in ("name", "bv"):
+            out.add(t)
+        else:
+            for x in t:
+                _name_leaves(x, out)
+
+
+def edit_distance(a, b, budget: int = 1, _qfree: bool = False) -> Optional[int]:
+    """Number of point edits (relabel a node / operator, replace a leaf expression, exchange two children, add or
+    drop one child of a list, insert or remove one unary wrapper such as `not` or a method call) that turn one skeleton
+    into the other, if at most ``budget``; None otherwise."""
+    if a == b:
+        return 0
+    if budget <= 0:
+        return None
+    from .skeleton import neg
+
+    if isinstance(a, tuple) and isinstance(b, tuple):
+        try:
+            if neg(a) == b or neg(b) == a:
+                return 1
+        except Exception:  # pylint: disable=broad-except
+            pass
+    if not isinstance(a, tuple) or not isinstance(b, tuple):
+        return 1 if (not isinstance(a, tuple) and not isinstance(b, tuple)) else None
+    if _is_expr_leaf(a) and _is_expr_leaf(b):
+        return 1
+    # two roles exchanged everywhere (self <-> argument)
+    names: set = set()
+    _name_leaves(a, names)
+    nl = sorted(names, key=repr)
+    if 2 <= len(nl) <= 8:
+        for i1 in range(len(nl)):
+            for i2 in range(i1 + 1, len(nl)):
+                if _swap_names(a, nl[i1], nl[i2]) == b:
+                    return 1
+    # the two coordinates of every unpacked pair exchanged (axes swapped)
+    def _swap_idx(t):
+        if isinstance(t, tuple):
+            if t and t[0] == "unpack" and len(t) == 3 and t[2] in (0, 1):
+                return ("unpack", _swap_idx(t[1]), 1 - t[2])
+            return tuple(_swap_idx(x) for x in t)
+        return t
+
+    if _swap_idx(a) == b:
+        return 1
+    # receiver and single argument of a method call exchanged
+    if a and b and a[0] == "call" and b[0] == "call" and a[2] == b[2] and a[1] is not None and b[1] is not None and len(a[3]) == 1 and len(b[3]) == 1 \
+            and a[1] == b[3][0] and b[1] == a[3][0] and a[4] == b[4]:
+        return 1
+    # a filter / condition added where there was none
+    if a in (("true",), ("const", "True")):
+        return 1  # the implementation dropped a condition
+    if b in (("true",), ("const", "True")):
+        # the implementation filters where the specification does not: decided only for filters on the bound variable alone
+        return 1 if all(v.startswith(("bv", "const")) for v in logic_vocab(a)) or not logic_vocab(a) else None
+    # the same conditions combined into a different boolean function
+    if same_atoms(a, b):
+        eq = prop_equivalent(a, b)
+        if eq is True:
+            return 0
+        if eq is False:
+            return 1
+    # operands of a comparison exchanged
+    if a and b and a[0] == b[0] and a[0] in ("cmp", "in") and len(a) == len(b):
+        if a[0] == "cmp" and a[1] == b[1] and a[2] == b[3] and a[3] == b[2]:
+            return 1
+        if a[0] == "in" and a[1] == b[2] and a[2] == b[1]:
+            return 1
+    best: Optional[int] = None
+    # symmetric comparison: operands may have been reordered by the normaliser
+    if a and b and a[0] == "cmp" and b[0] == "cmp" and a[1] in ("==", "!=") and b[1] in ("==", "!="):
+        base = 0 if a[1] == b[1] else 1
+        for (x1, y1), (x2, y2) in (((a[2], b[2]), (a[3], b[3])), ((a[2], b[3]), (a[3], b[2]))):
+            d1 = edit_distance(x1, y1, budget - base)
+            if d1 is None:
+                continue
+            d2 = edit_distance(x2, y2, budget - base - d1)
+            if d2 is None:
+                continue
+            if best is None or base + d1 + d2 < best:
+                best = base + d1 + d2
+    for inner in _wrapped(a):
+        # the implementation (first argument) wraps the specified value in one more operation: decided only for negation and
+        # for operations the specification itself uses (an extra pass of the same operator); `list(..)`, `iter(..)` etc. are not
+        if a[0] == "call" and f"call:{a[2]}" not in vocabulary(b):
+            continue
+        if a[0] in ("attr", "iter"):
+            continue
+        d = edit_distance(inner, b, budget - 1)
+        if d is not None and (best is None or d + 1 < best):
+            best = d + 1
+    for inner in _wrapped(b):
+        d = edit_distance(a, inner, budget - 1)
+        if d is not None and (best is None or d + 1 < best):
+            best = d + 1
+    if a and b and isinstance(a[0], str) and isinstance(b[0], str):
+        ta, tb = a[0], b[0]
+        if ta in ("and", "or") and tb in ("and", "or") and len(a) == 2 and len(b) == 2:
+            base = 0 if ta == tb else 1
+            d = _list_dist(a[1], b[1], budget - base, ordered=False)
+            if d is not None and (best is None or d + base < best):
+                best = d + base
+        elif len(a) == len(b):
+            base = 0 if ta == tb else 1
+            # quantifier pairs and comparison operators may be relabelled; other tags must agree.  Exchanging the kinds
+            # of quantifiers along one nesting chain (any/all swapped) counts as a single edit.
+            relabel_ok = {ta, tb} <= {"forall", "exists"} or ta == tb
+            qfree_here = _qfree
+            if base and {ta, tb} <= {"forall", "exists"}:
+                if _qfree:
+                    base = 0
+                qfree_here = True
+            if relabel_ok and base <= budget:
+                total = base
+                ok = True
+                for x, y in zip(a[1:], b[1:]):
+                    if x == y:
+                        continue
+                    if isinstance(x, tuple) and isinstance(y, tuple) and (not x or not isinstance(x[0], str)) and (not y or not isinstance(y[0], str)):
+                        d = _list_dist(x, y, budget - total, ordered=True)
+                    elif isinstance(x, tuple) and isinstance(y, tuple):
+                        d = edit_distance(x, y, budget - total, qfree_here) if not (qfree_here and not _qfree and budget - total == 0) else edit_distance(x, y, 1, True)
+                        if d is not None and qfree_here and not _qfree and budget - total == 0 and d > 0:
+                            # only further quantifier relabels are free
+                            d = d if _only_quantifier_relabels(x, y) else None
+                            d = 0 if d is not None else None
+                    elif isinstance(x, tuple) or isinstance(y, tuple):
+                        other = x if isinstance(x, tuple) else y
+                        d = 1 if ((x is None or y is None) and _is_expr_leaf(other)) else None
+                    else:
+                        d = 1
+                    if d is None:
+                        ok = False
+                        break
+                    total += d
+                    if total > budget:
+                        ok = False
+                        break
+                if ok and (best is None or total < best):
+                    best = total
+    return best if best is not None and best <= budget else None
+
+
+def _only_quantifier_relabels(a, b) -> bool:
+    if a == b:
+        return True
+    if not isinstance(a, tuple) or not isinstance(b, tuple) or len(a) != len(b):
+        return False
+    if a and b and isinstance(a[0], str) and isinstance(b[0], str) and a[0] != b[0]:
+        if not {a[0], b[0]} <= {"forall", "exists"}:
+            return False
+        return all(_only_quantifier_relabels(x, y) for x, y in zip(a[1:], b[1:]))
+    return all((x == y) if not (isinstance(x, tuple) and isinstance(y, tuple)) else _only_quantifier_relabels(x, y) for x, y in zip(a, b))
+
+
+def point_diffs(a, b) -> Optional[int]:
+    return edit_distance(a, b, 1)
+
+
 def strip_assuming(t):
     """Drop assert-preconditions (('assuming', cond, rest) -> rest) everywhere in a term."""
     if not isinstance(t, tuple):
@@ -165,20 +603,26 @@ def check_skeleton(ctx: Ctx, rule: str, fi: FuncInfo, specs: Sequence[str], what
             ctx.ok(rule, fi.where, f"{what} (both sides inlined): {show(inl)}", fi.node, fi)
             return True
         spec_terms = spec_terms + spec_inl
-    import re as _re
-
-    def modulo_params(v: set) -> set:
-        # the function's own parameters (a0, a1, ..) are interchangeable *as building blocks*: using the
-        # wrong one (or leaving one unused) is a decided difference, not an unknown idiom
-        return {x for x in v if not _re.fullmatch(r"name:a\d+", x)}
-
+    # (2) equal as functions of their atoms (case analyses restructured, guards nested differently, ...)
+    for c in cands:
+        for sp in spec_terms:
+            if prop_equivalent(c, sp, ctx.repo) is True:
+                ctx.ok(rule, fi.where, f"{what}: {show(c)[:300]}  (propositionally equal to the specification)", fi.node, fi)
+                return True
+    # (3) a point change of the specification: same shape, exactly one label / operator / leaf differs
     for c in cands:
         if has_unrecognised(c):
             continue
-        for s in spec_terms:
-            if modulo_params(logic_vocab(c)) == modulo_params(logic_vocab(s)):
-                ctx.violation(rule, fi, fi.node, f"{what}: implementation computes  {show(c)}  but the property requires  {show(s)}")
+        for sp in spec_terms:
+            d = point_diffs(c, sp)
+            if d == 1:
+                ctx.violation(rule, fi, fi.node, f"{what}: implementation computes  {show(c)}  but the property requires  {show(sp)}")
+                return False
+            # (4) the same conditions combined into a different boolean function (negated, and/or exchanged, a case dropped)
+            if same_atoms(c, sp) and prop_equivalent(c, sp, ctx.repo) is False:
+                w = getattr(prop_equivalent, "witness", {})
+                ctx.violation(rule, fi, fi.node, f"{what}: implementation computes  {show(c)}  but the property requires  {show(sp)}  (they differ when {w})")
                 return False
     raise AnalysisError(
-        f"{fi.where}: skeleton {show(impl)[:200]} uses other building blocks than the specification {show(spec_terms[0])[:200]}; cannot decide ({rule})"
+        f"{fi.where}: skeleton {show(impl)[:200]} is neither the specification nor a point change of it: {show(spec_terms[0])[:200]}; cannot decide ({rule})"
     )
